@@ -8,6 +8,7 @@ C evaluators: verdict/direct (differences empty <=> structurally equal),
               verdict/default (<=> equal up to the order of non-record list items),
               flags (same verdict and same core entries under every reachable flag configuration)
 """
+import copy
 import itertools
 
 from harness import core
@@ -17,8 +18,8 @@ from harness.props import compare_common as cc
 MANIFEST = dict(
     category="proof",
     technique="Lean 4 theorems over a hand-written model of the compare engine + differential correspondence with the implementation",
-    text="Lean theorems, unbounded in tree size/depth, stated for EVERY flag record (C07_reachable / C07_reachable_iff: the configurations reachable through any history of set__flag_compare_* calls are exactly those satisfying FlagInv, so 'every flag record' covers them): C07_direct_exact - on recursively converted trees with roots of the same kind direct_compare returns and its differences list is empty iff the trees are structurally equal (deq: same key set with equal values, same list length and order, leaves equal with equal type, None only equals None); C07_default_exact_partial - the default compare (no composite key) reports nothing iff the trees are equal up to the order of the non-record items inside each list (eqv), under the hypothesis NoStrCollision (str() injective on the non-record list items and never empty); C07_default_exact_local (Proofs/CompareDefaultTight.lean) - the same equivalence under the LOCAL, one-sided hypothesis DtLocalOK b: in every list of the right operand two items with the same key (str() of a non-record item, '' for a record) are both records or identical - exactly the class of finding C07-b ([1,'1'], ['',{}], [None,'None'] inside ONE list; collisions between items of two different lists such as [1] against ['1'] are allowed, nothing is asked of the left operand's lists) - plus DtNestedInj (str() determines the lists nested directly in lists; vacuous without list-in-list; needed in the model only because floats are opaque lexemes, C07_nested_needed_cex); C07_local_of_noStrCollision / C07_local_strictly_weaker - NoStrCollision implies the local hypotheses and not conversely; the class is TIGHT: C07_collision_class_tight - for ANY two distinct leaves x, y with str(x) == str(y) the lists [x, y] and [y, x] are equal up to order and two differences are reported, C07_collision_class_tight_rec - likewise [x, R] / [R, x] for any leaf with empty str() and any record R; the full statement C07_default_exact_stmt is refuted on the pinned tree by C07_collision_cex / C07_emptykey_cex (known finding C07-b; C07-c is the dict-key-order variant seen by the Python oracle); C07_flags_only_add_detail / C07_verdict_flags - for every option record two flag records give the same exception class or the same number of lines and the same core entries (numeric deltas, equal-lists, shown places and the difftypes/not_equal placement are the only things that vary). The model (lean/N0Verif/Model/Compare.lean) follows n0dict.compare/direct_compare, n0list.compare/direct_compare, xpath_match, generate_composite_keys, update_extend and the flag machine branch by branch for the code WITH fix patches C07-a, C08-a, C09-a applied; it is compared with the implementation on generated pairs of trees (verdict, entry sets with rendered paths and values, number of prose lines, exception class) and the statement itself is executed on the implementation with Python-side oracles.",
-    note='str()/repr() of values, xpath_match and the flag machine are modelled and validated by their own streams (cmp.keys, cmp.match, cmp.flags incl. all histories of length <= 3/4); floats are opaque lexemes (NaN, infinities, -0.0 excluded); ints stay within float range; dictionary keys unique (Python dicts).',
+    text="Lean theorems, unbounded in tree size/depth, stated for EVERY flag record (C07_reachable / C07_reachable_iff: the configurations reachable through any history of set__flag_compare_* calls are exactly those satisfying FlagInv, so 'every flag record' covers them): C07_direct_exact - on recursively converted trees with roots of the same kind direct_compare returns and its differences list is empty iff the trees are structurally equal (deq: same key set with equal values, same list length and order, leaves equal with equal type, None only equals None); C07_default_exact - the default compare (no composite key) returns and reports nothing iff the trees are equal up to the order of the non-record items inside each list (eqv: dictionaries key by key, the records of a list pairwise in order, the non-record items of a list the same up to deq as multisets: every item occurs, up to deq, equally often on both sides - so 1, '1', 1.0, True, None, 'None', '' are different items and a list nested in a list does not depend on the order of the keys of the dictionaries inside it: the inputs of the fixed findings C07-b and C07-c are inside the theorem, C07_collision_fixed / C07_emptykey_fixed / C07_keyorder_fixed) under ONE remaining hypothesis that speaks about the key function, not about the inputs: KeyFaithfulOn a b - the key of the non-record list items, json.dumps(item, sort_keys=True, default=repr) (modelled character by character: jsonVal, validated by stream cmp.keys), is equal for two of them iff they are deq, and is never empty. It is true of json.dumps on genuine Python values and is not derivable in the model because floats are opaque lexemes: C07_float_lexeme_cex (a float with the lexeme '1' has the key of the int 1 - not a Python value), hence C07_default_exact_stmt (no hypothesis) is false IN THE MODEL ONLY (C07_default_exact_stmt_false_in_model) - not a finding; C07_key_hypothesis_tight - for ANY two distinct leaves with the same key, [x, y] and [y, x] are equal up to order and two differences are reported (the hypothesis cannot be dropped); C07_default_refl; C07_flags_only_add_detail / C07_verdict_flags - for every option record two flag records give the same exception class or the same number of lines and the same core entries with the same places (numeric deltas, equal-lists, shown places and the difftypes/not_equal filing are the only things that vary). The model (lean/N0Verif/Model/Compare.lean) follows n0dict.compare/direct_compare, n0list.compare/direct_compare, xpath_match, generate_composite_keys, update_extend and the flag machine branch by branch for the code WITH fix patches C07-a, C08-a, C09-a, C07-b, C07-c, C09-b, C10-a applied; it is compared with the implementation on generated pairs of trees (verdict, entry sets with rendered paths and values, number of prose lines, exception class) and the statement itself is executed on the implementation with Python-side oracles - on ALL generated inputs, collisions of str(), reordered dictionary keys inside nested lists and mixed scalar types included (no class is suppressed any more).",
+    note='str()/repr() and the JSON text (sorted keys, ensure_ascii escapes) of values, xpath_match and the flag machine are modelled and validated by their own streams (cmp.keys, cmp.match, cmp.flags incl. all histories of length <= 3/4); floats are opaque lexemes (NaN, infinities, -0.0 excluded); ints stay within float range; dictionary keys unique (Python dicts).',
     design_ref='5/C07',
 )
 
@@ -63,13 +64,6 @@ def core_entries(run):
     return sorted(out)
 
 
-def strip_idx2(entries):
-    """a type clash is reported at prefix[i], a not-equal pair at prefix[i]<>[j]: compare without the right index"""
-    import re
-
-    return sorted((e[0],) + ((re.sub(r"<>\[\d+\]$", "", e[1]),) + e[2:] if e[0] == "ne" else e[1:]) for e in entries)
-
-
 @evaluator("flags")
 def check_flags(c):
     """C07: the verdict (and the core entries) are the same under the default flags and under the history"""
@@ -83,18 +77,13 @@ def check_flags(c):
         return {"verdict_default_flags": verdict(r0), "verdict_history": verdict(r1), "flags": cc.flags_tok(r1.fl)}
     if len(r1.res["differences"]) != len(r0.res["differences"]):
         return {"differences_default_flags": len(r0.res["differences"]), "differences_history": len(r1.res["differences"])}
-    if strip_idx2(core_entries(r1)) != strip_idx2(core_entries(r0)):
+    if core_entries(r1) != core_entries(r0):
         return {"core_default": core_entries(r0)[:6], "core_history": core_entries(r1)[:6], "flags": cc.flags_tok(r1.fl)}
     return None
 
 
 def known_class(c, detail=None):
-    if c.get("mode") == "k":
-        if cc.has_str_collision(c["a"], c["b"]):
-            return "C07-b"
-        if cc.has_key_order_class(c["a"], c["b"]):
-            return "C07-c"
-    return None
+    return None  # no open finding: C07-b and C07-c are fixed, their inputs are checked like all others
 
 
 def corr_known(c):
@@ -187,7 +176,7 @@ def run(ctx):
         lambda c: "cmp.match %s %s" % (enc_str(c["xpath"]), cc.enc_patarg(c["pats"])),
         lambda c: "ok %d" % uc.xpath_match(c["xpath"], cc.py_patarg(c["pats"])),
     )
-    # ---- B2: str()-keys of list items (generate_composite_keys without fields)
+    # ---- B2: keys of list items (generate_composite_keys: JSON text of non-record items, composite keys of records)
     rng = ctx.rng("keys")
     kcases = []
     for _ in range(n // 2):
@@ -195,6 +184,13 @@ def run(ctx):
         ck = rng.choice([[], [], rng.sample(cc.KEYS, 1), rng.sample(cc.KEYS, 2), rng.choice(cc.KEYS)])
         tr = [] if rng.random() < 0.7 else [[rng.choice(["//" + k for k in cc.KEYS] + ["*", ""]), rng.choice(cc.TR_NAMES)]]
         kcases.append({"list": lst, "ck": ck, "tr": tr})
+    # JSON text of exotic strings, nested containers and dictionaries whose keys need sorting / escaping
+    exotic = ["", '"', "\\", "\n\r\t\b\f", "\x00\x1f\x7f", "\x80\xa0\xff", "\u0100\u2028\uffff", "\U0001f600a", "a\"b\\c", "~ !", "[1, 2]", "null"]
+    for i in range(n // 20):
+        lst = [rng.choice(exotic + [None, True, False, 0, -7, 2.5, 1e20, 12345678901234567890]) for _ in range(rng.choice([1, 2, 3]))]
+        if i % 3 == 0:
+            lst.append([{rng.choice(["\xe9", "k\u0100", "\U0001f600", "Zz", "a b"]): lst[0], "b": [1, {"z": None, "a": "x"}], "B": 1, "aa": 3, "a": 4}])
+        kcases.append({"list": lst, "ck": [], "tr": [] if i % 2 else [["*", rng.choice(["id", "const", "trunc"])]]})  # lower(): ASCII/Latin-1 only in the driver
 
     def keys_impl(c):
         r = core.call(uc.generate_composite_keys, cc.build(c["list"]), cc.py_patarg(c["ck"]), "/p", cc.py_tr(c["tr"]))
@@ -211,7 +207,7 @@ def run(ctx):
     )
     # ---- B3 + C: pairs under setter histories, both entry points
     rng = ctx.rng("pairs")
-    cases = [cc.gen_case(rng, depth, collide=(i % 4 == 0)) for i in range(n)]
+    cases = [cc.gen_case(rng, depth, collide=(i % 2 == 0)) for i in range(n)]
     dcases = [c for c in cases if c["mode"] == "d"]
     kcases2 = [c for c in cases if c["mode"] == "k"]
     nt = lambda c: c["_kind"] != "equal"
@@ -224,16 +220,18 @@ def run(ctx):
     rrng = ctx.rng("repeat")
     rcases = [dict(c, seed=rrng.randrange(10**9), n=rrng.randrange(1, 3)) for c in (kcases2[: ctx.budget(1000, 14000)] + dcases[: ctx.budget(500, 6000)])]
     ctx.evaluate("repeat", rcases, cc.check_repeat)
-    # ---- the known-finding classes are exercised on purpose (model and implementation must agree there too)
+    # ---- the classes of the fixed findings C07-b / C07-c are exercised on purpose: values with the same str() and
+    # another type, '' next to a record, nested lists holding dictionaries whose keys come in another order
     rng = ctx.rng("collisions")
-    pool = [1, "1", None, "None", True, "True", "", {}, 1.0, "1.0", [1], "[1]", [{"x": 1, "y": 2}], "a"]
+    pool = [1, "1", None, "None", True, "True", "", {}, 1.0, "1.0", [1], "[1]", [{"x": 1, "y": 2}], "a", 0, False, "null", "true",
+            [{"y": 2, "x": 1}], [[{"k": [1, "1"], "a": None}]], ["1"], [None], "é", '"1"', [{"x": 1, "y": 3}], [1.0], [True]]
     ccases = []
-    for _ in range(n // 10):
-        xs = [rng.choice(pool) for _ in range(rng.choice([1, 2, 3, 4]))]
-        ys = list(xs)
+    for _ in range(n // 5):
+        xs = [copy.deepcopy(rng.choice(pool)) for _ in range(rng.choice([1, 2, 3, 4, 5]))]
+        ys = cc.reorder_keys(rng, copy.deepcopy(xs))
         rng.shuffle(ys)
         if rng.random() < 0.3 and ys:
-            ys[rng.randrange(len(ys))] = rng.choice(pool)
+            ys[rng.randrange(len(ys))] = copy.deepcopy(rng.choice(pool))
         ccases.append({"mode": "k", "setters": cc.gen_setters(rng), "ck": [], "only": [], "excl": [], "tr": [], "a": {"a": xs}, "b": {"a": ys}, "_kind": "collision"})
     ctx.correspond("cmp.run/collisions", ccases, cc.corr_line, cc.corr_impl)
     ctx.evaluate("verdict/collisions", ccases, check_verdict, in_known=known_class)
@@ -262,7 +260,7 @@ def run(ctx):
         "trees are converted recursively (every container is an n0dict/n0list), dictionary keys are plain str names",
         "floats are compared by repr (NaN, infinities and -0.0 are not generated)",
         "ints stay within float range (the numeric-delta detail calls float() on them)",
-        "str()/repr() of values is modelled for ASCII, Latin-1 and printable non-ASCII characters (validated by stream cmp.keys)",
-        "the model follows the code with fix patches C07-a, C08-a, C09-a applied",
+        "str()/repr() of values is modelled for ASCII, Latin-1 and printable non-ASCII characters; the JSON text of a list item (ensure_ascii escapes, surrogate pairs, sorted keys) for every code point (both validated by stream cmp.keys)",
+        "the model follows the code with fix patches C07-a, C08-a, C09-a, C07-b, C07-c, C09-b, C10-a applied",
     ]
     ctx.extra["trusted_base"] = ["Python-side oracles deq/eqv of harness/props/compare_common.py (reading of 'structurally equal' / 'equal up to order')"]
